@@ -327,6 +327,7 @@ class Program:
                 appended: List[Tuple[str, str]] = []  # (list, param)
                 ok = True
                 ret_ok = False
+                idx_locals: Dict[str, str] = {}
                 body = [s for s in f.node.body if not (isinstance(s, ast.Expr) and isinstance(s.value, ast.Constant))]
                 for s in body:
                     if (
@@ -343,7 +344,12 @@ class Program:
                         appended.append((s.value.func.value.id, s.value.args[0].id))
                     elif isinstance(s, ast.Return) and appended:
                         src = ast.unparse(s.value) if s.value is not None else ""
-                        ret_ok = src in {f"len({l}) - 1" for l, _ in appended}
+                        ret_ok = src in {f"len({l}) - 1" for l, _ in appended} or (src in idx_locals and idx_locals[src] == "after")
+                    elif isinstance(s, ast.Return) and not appended:
+                        ok = False
+                    elif isinstance(s, ast.Assign) and len(s.targets) == 1 and isinstance(s.targets[0], ast.Name) and (
+                            (appended and ast.unparse(s.value) in {f"len({l}) - 1" for l, _ in appended})):
+                        idx_locals[s.targets[0].id] = "after"  # idx = len(L) - 1 taken after the append
                     else:
                         ok = False
                 if appended:
